@@ -24,6 +24,7 @@ DELTA = [(-1, 0), (0, -1), (1, 0), (0, 1), (0, 0)]  # (d_row, d_col) per action 
 
 class A(Adapter):
     name = "PacMan"
+    run_scale = 1
     mask_mode = "flat"
     has_reaction = True
     has_invalid_effect = True
